@@ -15,3 +15,4 @@ def rules(ctx):
     S.header_codec_rules(ctx)
     S.child_pair_rules(ctx)
     S.root_pair_rules(ctx)
+    S.create_only_when_empty_rules(ctx)
